@@ -508,35 +508,6 @@ def Src.usable (s : Src) : Bool :=
 def fromStart (s : Src) (known : Nat) (frames : List Frame) : List Frame :=
   if s.usable then frames.drop known else []
 
-/-- the non-empty-or-empty tails of a list -/
-def suffixes {α : Type} : List α → List (List α)
-  | [] => [[]]
-  | x :: xs => (x :: xs) :: suffixes xs
-
-/-- C08 for a client that joins a running stream at an unknown tag — the weak form of
-    `checkJoinedAt` below (which it follows from: `c08_joined_at_implies_joined`): the bytes parse
-    as FLV with the right header, and the tags are the configuration prefix (metadata, video
-    configuration, AAC configuration iff audio — timestamp 0) followed by one tag per carried
-    frame of some tail of the frame sequence, timestamps rebased to that tail's first frame
-    (replayed GOP), to the frame right before the tail (no cached GOP: the time of the join) or to
-    the stream's time 0 (joined before the first frame). -/
-def checkJoined (s : Src) (frames : List Frame) (bytes : Bytes) : Bool :=
-  match parseFlv bytes with
-  | none => false
-  | some (h, tags) =>
-    h.version = 1 && h.video && h.audio == s.aac &&
-    (tags.isEmpty ||
-     let cf := frames.filter (carried s)
-     (List.range (cf.length + 1)).any fun i =>
-       let fs := cf.drop i
-       prefixThenMedia s 0 fs tags ||
-       (match fs with
-        | f :: _ => prefixThenMedia s (tagTimeMs f) fs tags
-        | [] => false) ||
-       (match (cf.take i).getLast? with
-        | some l => prefixThenMedia s (tagTimeMs l) fs tags
-        | none => false))
-
 /-! ### joining at a known tag: exactly which frames, on which time line -/
 
 /-- a key frame of the stream: a video frame whose NAL unit is an IDR / IRAP picture -/
@@ -554,6 +525,9 @@ def fromLastKey (s : Src) : List Frame → Option (List Frame)
     the AAC configuration iff the stream has AAC -/
 def prefixLen (s : Src) : Nat := if s.aac then 3 else 2
 
+/-- the time of the last frame of a list (the stream's time 0 for the empty list) -/
+def lastTime (l : List Frame) : Int := match l.getLast? with | some f => tagTimeMs f | none => 0
+
 /-- What a client that joins after `j` of the carried frames `fs` went out is owed, and the
     origin of its time line ("rebased so the client's first tag is zero").  With GOP caching and a
     key frame among the first `j` frames: every frame from the latest such key frame on, and the
@@ -565,10 +539,10 @@ def prefixLen (s : Src) : Nat := if s.aac then 3 else 2
 def joinView (s : Src) (gop : Bool) (fs : List Frame) (j : Nat) : Int × List Frame :=
   match (if gop then fromLastKey s (fs.take j) else none) with
   | some (g :: gs) => (tagTimeMs g, (g :: gs) ++ fs.drop j)
-  | _ => ((match (fs.take j).getLast? with | some l => tagTimeMs l | none => 0), fs.drop j)
+  | _ => (lastTime (fs.take j), fs.drop j)
 
 /-- C08 for a client that joins a running stream after the stream has written `k` tags (GOP
-    caching `gop`) — the join-point-exact form of `checkJoined`: the bytes parse as FLV with the
+    caching `gop`): the bytes parse as FLV with the
     right header, and the tags are the configuration prefix (timestamp 0) followed by exactly one
     tag per frame of `joinView` — nothing lost, nothing twice, nothing else — each carrying its
     source frame, timestamps rebased to `joinView`'s origin and never wrapped.  Only a stream that
